@@ -166,6 +166,7 @@ def check(case, obs):
     if not obs.claim('returns', not raised(out), lambda: 'hist_bins(%r, %r, %r, %r) raised %r' % (ch_arg, nbins, scale, kw, out)):
         return
     outs = out if is_list else [out]
+    snapshot = [np.array(o, dtype=float, copy=True) for o in outs] if all(np.ndim(o) == 1 for o in outs) else None
     if not obs.claim('per_channel', isinstance(out, list) == is_list and len(outs) == k,
                      lambda: 'result container: %r for form %s' % (type(out), form)):
         return
@@ -199,3 +200,10 @@ def check(case, obs):
             h, _ = np.histogram(np.arange(res[j], dtype=float), bins=e)
             obs.claim('one_bin', int(h.sum()) == res[j],
                       lambda: '%s: %d of %d reportable values fall in a bin' % (ctx, int(h.sum()), res[j]))
+    # edges handed out earlier are not changed by later requests on the same sample
+    if snapshot is not None:
+        call(d.hist_bins, None, 7, 'linear')
+        call(d.hist_bins, 0, None, 'log')
+        call(d.hist_bins, 0, 5, 'logicle', T=777.0, M=3.0, W=0.2)
+        obs.claim('stable', all(np.array_equal(np.asarray(o, dtype=float), s0) for o, s0 in zip(outs, snapshot)),
+                  'bin edges returned earlier changed after later hist_bins calls')
